@@ -1,7 +1,5 @@
 package redisemu
 
-import "strings"
-
 func redisGlob(pattern, candidate []rune) bool {
 
 	if pattern == nil {
@@ -32,8 +30,14 @@ func redisGlob(pattern, candidate []rune) bool {
 
 			return false
 		} else if patCh == '[' {
-			var patSet strings.Builder
+			// character class: literals, a-z ranges, \x escapes, leading ^ negates
 			patPos++
+			negate := false
+			if patPos < len(pattern) && pattern[patPos] == '^' {
+				negate = true
+				patPos++
+			}
+			matched := false
 			for patPos < len(pattern) {
 				letter := pattern[patPos]
 				if letter == ']' {
@@ -42,11 +46,24 @@ func redisGlob(pattern, candidate []rune) bool {
 				}
 				if letter == '\\' && patPos+1 < len(pattern) {
 					patPos++
+					if pattern[patPos] == candidate[i] {
+						matched = true
+					}
+				} else if patPos+2 < len(pattern) && pattern[patPos+1] == '-' {
+					lo, hi := letter, pattern[patPos+2]
+					if lo > hi {
+						lo, hi = hi, lo
+					}
+					if candidate[i] >= lo && candidate[i] <= hi {
+						matched = true
+					}
+					patPos += 2
+				} else if letter == candidate[i] {
+					matched = true
 				}
-				patSet.WriteRune(pattern[patPos])
 				patPos++
 			}
-			if !strings.ContainsRune(patSet.String(), candidate[i]) {
+			if matched == negate {
 				return false
 			}
 		} else if patCh == '\\' && patPos+1 < len(pattern) {
